@@ -208,6 +208,11 @@ let () =
              if go_m <> "ERR" && not (twkb_ok o gi bs) then
                fail id "SPEC" "ring_closure"
                  (trunc ("F19-class: after rounding the vertex before the closing vertex equals the first vertex; opts=" ^ f.(3)))
+           end else if wf_twkb_xyring o gi then begin
+             count "f73_class";
+             if go_m <> "ERR" && not (twkb_ok o gi bs) then
+               fail id "SPEC" "ring_closure_zm"
+                 (trunc ("F73-class: a ring is closed in X and Y but its closing vertex differs from the first vertex in Z or M; opts=" ^ f.(3)))
            end else count "outside_domain"
          | _ ->
            (* a scaled ordinate leaves int64 (or is not finite): the writer must refuse *)
